@@ -136,7 +136,7 @@ BOUNDS_DOC = {
                 "carriers, refused handshakes with every late input in both feeds): M<=2,S<=3 (trio: M<=1,S<=3,R<=1); late (shapes one, one_end, two): M<=1,S<=2 (trio R<=1); "
                 "grammar BFS depth 4 (full alphabet, both engines) and depth 5 (core alphabet, asyncio)",
 }
-BUDGET = {"quick": 90, "thorough": 1200}
+BUDGET = {"quick": 300, "thorough": 1200}
 
 H1_CARRIERS = ("h1", "ws/h1", "h2c", "h2pk")
 H2_TLS: Dict[str, Any] = {"carrier": "h2", "tls": True, "alpn": "h2"}
